@@ -141,10 +141,21 @@ func (f *Frame) analyzeLoops() {
 	for h := range f.loops {
 		headers = append(headers, h)
 	}
+	srcPos := map[int]token.Pos{}
+	for _, h := range headers {
+		srcPos[h] = f.loopStmtPos(f.loops[h])
+	}
 	sort.Slice(headers, func(i, j int) bool {
-		pi, pj := f.blockPos(f.loops[headers[i]].header), f.blockPos(f.loops[headers[j]].header)
-		if pi != pj {
-			return pi < pj
+		// source order of the loop statements; loops whose statement cannot be found come last, by block index
+		si, sj := srcPos[headers[i]], srcPos[headers[j]]
+		if si != sj {
+			if !si.IsValid() {
+				return false
+			}
+			if !sj.IsValid() {
+				return true
+			}
+			return si < sj
 		}
 		return headers[i] < headers[j]
 	})
@@ -490,7 +501,7 @@ func (f *Frame) safe(kind string, pos token.Pos, text string, cond string) {
 	if cond == "true" {
 		return
 	}
-	if f.safety {
+	if f.safety && f.safetyKindWanted(kind) {
 		lbl := f.label(kind, text)
 		o := &Obligation{Name: f.rootKey() + "#safe:" + lbl, Kind: "safe", Tags: f.safeTags(), Guard: f.guard, Cond: cond, Pos: f.p.posString(pos)}
 		f.vc.addObl(o)
@@ -883,6 +894,9 @@ func (f *Frame) checkLoopInv(li *loopInfo, latch *ssa.BasicBlock, si int, entry 
 			lbl := f.label("lock", "balanced-in-loop:"+li.key)
 			f.assertObl("lock", lbl, nil, guard, and(conj...), "")
 		}
+	}
+	if !entry {
+		f.siteContinue(li, latch, guard, st)
 	}
 	for _, c := range invs {
 		env := f.envAt(st, li)
